@@ -3,7 +3,7 @@
    Everything below is about [hs_run true]; c14_pool_legacy_refuted is about the original release(). *)
 From Coq Require Import List NArith Bool.
 Import ListNotations.
-From AnySync Require Import Model.Handshake Proofs.HandshakeProofs Proofs.HandshakeRun.
+From AnySync Require Import Model.Handshake Proofs.HandshakeProofs Proofs.HandshakeRun Proofs.HandshakeTamper.
 Open Scope N_scope.
 
 (* ---- concrete ends used by the examples *)
@@ -19,10 +19,13 @@ Theorem c14_model_meets_spec_partial : forall c, k_cancel c = None ->
 Proof. exact model_meets_spec_nocancel. Qed.
 Print Assumptions c14_model_meets_spec_partial.
 (* Full statement wanted: forall c, spec_C14 c (fst (hs_run true c)) (snd (hs_run true c)) = true.
+   spec_C14 = spec_C14_core (success justified; honest peers: same verdict, success iff mutual acceptance; cancellation)
+              && tamper_ok (tampered frames never end in success, see c14_tampered_* below).
    Proved for k_cancel c = None, and, for EVERY c (cancellation included), the two [success_sound] conjuncts
    (c14_success_justified).  Missing: the cancellation clause of spec_C14 (c14_cancel_safe: a cancelled side fails;
    the other side fails too except in the two-generals case) -- it is evaluated on every harness case and in the
-   examples c14_cancel_examples, but not proved for all configurations. *)
+   examples c14_cancel_examples, but not proved for all configurations.  (tamper_ok says nothing when a context is
+   cancelled, so nothing is missing there.) *)
 
 Theorem c14_success_justified : forall c oo oi, hs_run true c = (oo, oi) ->
   success_sound (k_in c) (k_out c) (k_a1 c) oi = true /\ success_sound (k_out c) (k_in c) (k_a2 c) oo = true.
@@ -148,6 +151,74 @@ Example c14_garbage_nonvacuous :
     = (Err EOther, Err EOther) /\
   hs_run true (mkCase (k_out good) (k_in good) APass APass APass (AReplace [mkItem 1 0 0 (BCred (mk_cred (k_in good)))] false) None false pooled_zero pooled_zero)
     = (Err (EProto 3), Ok (mkRes None 5 (mkCv 2 false))).
+Proof. vm_compute. repeat split; reflexivity. Qed.
+
+(* ---- tampered frames, all four positions (1: initiator's credentials, 2: responder's credentials, 3: initiator's
+        Ack{Null}, 4: responder's Ack{Null}).  [bad_edit k a]: the man in the middle puts in the place of frame k nothing at
+        all, or something whose first frame is oversized (> 200 KiB announced), truncated, of a type that does not belong
+        at position k (out of order), undecodable, or an acknowledgement other than Ack{Null} where Ack{Null} belongs.
+        Exactly one frame edited, k <= 3: NEITHER side reports success. *)
+Theorem c14_tampered_never_success : forall c, k_cancel c = None ->
+  (bad_edit 1 (k_a1 c) = true /\ k_a2 c = APass /\ k_a3 c = APass /\ k_a4 c = APass) \/
+  (k_a1 c = APass /\ bad_edit 2 (k_a2 c) = true /\ k_a3 c = APass /\ k_a4 c = APass) \/
+  (k_a1 c = APass /\ k_a2 c = APass /\ bad_edit 3 (k_a3 c) = true /\ k_a4 c = APass) ->
+  is_ok (fst (hs_run true c)) = false /\ is_ok (snd (hs_run true c)) = false.
+Proof. exact single_bad_edit_no_success. Qed.
+Print Assumptions c14_tampered_never_success.
+
+(* the LAST frame: its sender (the responder) has returned before the frame travels and cannot learn its fate, so the
+   only thing the property can demand is: the responder's verdict is that of the untampered handshake, and the
+   initiator never reports success on a bad frame 4 *)
+Theorem c14_tampered_last_frame : forall c, k_cancel c = None ->
+  k_a1 c = APass -> k_a2 c = APass -> k_a3 c = APass -> k_a4 c <> APass ->
+  is_ok (snd (hs_run true c)) = accepts (k_in c) (k_out c) && accepts (k_out c) (k_in c) /\
+  (bad_edit 4 (k_a4 c) = true -> is_ok (fst (hs_run true c)) = false).
+Proof. exact last_frame_edit. Qed.
+Print Assumptions c14_tampered_last_frame.
+
+(* whatever ELSE the man in the middle edits: a side whose first frame was untouched never succeeds on a bad second frame *)
+Theorem c14_bad_third_frame_fails_responder : forall c, k_cancel c = None -> k_a1 c = APass ->
+  bad_edit 3 (k_a3 c) = true -> is_ok (snd (hs_run true c)) = false.
+Proof. exact bad3_in_fails. Qed.
+Print Assumptions c14_bad_third_frame_fails_responder.
+Theorem c14_bad_fourth_frame_fails_initiator : forall c, k_cancel c = None -> k_a2 c = APass ->
+  bad_edit 4 (k_a4 c) = true -> is_ok (fst (hs_run true c)) = false.
+Proof. exact bad4_out_fails. Qed.
+Print Assumptions c14_bad_fourth_frame_fails_initiator.
+
+(* the clauses as the executable predicate evaluated on the implementation's observed outcomes *)
+Theorem c14_model_meets_tamper_clauses : forall c, k_cancel c = None ->
+  tamper_ok c (fst (hs_run true c)) (snd (hs_run true c)) = true.
+Proof. exact model_tamper_ok. Qed.
+Print Assumptions c14_model_meets_tamper_clauses.
+
+(* non-vacuity: an oversized size field in each of the four frames, over both kinds of pipe; and observations a buggy
+   implementation could produce (the rejecting side acknowledges the oversized frame with Ack{Null} = "success") are
+   refused by spec_C14 *)
+Definition exOver (tp : N) : act := AReplace [mkItem tp 204801 9 BUndecodable] false.
+Definition exT (a1 a2 a3 a4 : act) (wf : bool) : hs_case :=
+  mkCase (exA 5 [5] true) (exB 5 [5] true) a1 a2 a3 a4 None wf pooled_zero pooled_zero.
+Example c14_tampered_nonvacuous :
+  let okO := Ok (mkRes (Some 1) 5 (mkCv 3 false)) in
+  let okI := Ok (mkRes (Some 0) 5 (mkCv 2 false)) in
+  bad_edit 1 (exOver 1) = true /\ bad_edit 2 (exOver 1) = true /\ bad_edit 3 (exOver 2) = true /\ bad_edit 4 (exOver 2) = true /\
+  bad_edit 3 (AReplace [mkItem 2 2 2 (BAck 0)] false) = false /\ bad_edit 3 (AReplace [mkItem 2 2 2 (BAck 8)] false) = true /\
+  map (fun wf => hs_run true (exT (exOver 1) APass APass APass wf)) [false; true]
+    = [(Err (EProto 1), Err EOther); (Err (EProto 1), Err EOther)] /\
+  map (fun wf => hs_run true (exT APass (exOver 1) APass APass wf)) [false; true]
+    = [(Err EOther, Err (EProto 1)); (Err EOther, Err (EProto 1))] /\
+  map (fun wf => hs_run true (exT APass APass (exOver 2) APass wf)) [false; true]
+    = [(Err (EProto 1), Err EOther); (Err (EProto 1), Err EOther)] /\
+  map (fun wf => hs_run true (exT APass APass APass (exOver 2) wf)) [false; true]
+    = [(Err EOther, okI); (Err EOther, okI)] /\
+  (* the rejecting side answered Ack{Null}: frame 3 oversized, initiator reports success -- refused *)
+  spec_C14 (exT APass APass (exOver 2) APass true) okO (Err EOther) = false /\
+  (* frame 2 oversized over a buffered pipe, responder reports success -- refused *)
+  spec_C14 (exT APass (exOver 1) APass APass false) (Err EOther) okI = false /\
+  (* a forged error acknowledgement in the place of frame 4 taken for success -- refused *)
+  spec_C14 (exT APass APass APass (AReplace [mkItem 2 2 2 (BAck 8)] false) false) okO okI = false /\
+  (* the legitimate asymmetry of the last frame is accepted *)
+  spec_C14 (exT APass APass APass (exOver 2) false) (Err EOther) okI = true.
 Proof. vm_compute. repeat split; reflexivity. Qed.
 
 (* ---- the result does not depend on what the pooled objects were used for before *)
